@@ -15,6 +15,7 @@ import FP.Model.SafetyJson
 import FP.Model.MFD
 import FP.Model.NodeExpandJson
 import FP.Model.NodeExpandModesJson
+import FP.Model.NodeExpandModesCyc
 import FP.Model.TablesJson
 import FP.Model.Enc.KFDCWitness
 import FP.Model.Enc.ErrCheck
@@ -29,6 +30,6 @@ open Lean
 
 def encHandlersAll : List (String → Json → Option (Except String Json)) :=
   [handleKLAE, handleKMPE, handleKCover, handleMGS, handleMSC, handleMEF,
-   handleKFDC, handleKCoverC, handleKLAEC, handleKMPEC, FP.Parser.handleParser, FP.MFD.handleMFD, NX.handleNodeExpand, NX.handleNodeModes, handleK4, handleKFDCWitness, handleErrCheck, handleWidth, Safety.handleSafety, handleC17, handleIgnoreBlock, handleWalkSafety, handlePathSafety]
+   handleKFDC, handleKCoverC, handleKLAEC, handleKMPEC, FP.Parser.handleParser, FP.MFD.handleMFD, NX.handleNodeExpand, NX.handleNodeModes, NX.handleNodeModesCyc, handleK4, handleKFDCWitness, handleErrCheck, handleWidth, Safety.handleSafety, handleC17, handleIgnoreBlock, handleWalkSafety, handlePathSafety]
 
 end FP
